@@ -170,7 +170,20 @@ var ovmOps = map[string]stateOp{
 var ovmFields = []stateField{{"Active", "list G_PublicKeysChangeProposal"}, {"Finished", "list G_PublicKeysChangeProposal"}, {"Vault", "G_KeyVault"},
 	{"VaultFound", "bool"}, {"Now", "Z"}}
 
+var subtopOps = map[string]stateOp{
+	"GetSubaccountByOwner":  {kind: "exists", field: []string{"Exists"}},
+	"GetAccountSummary":     {kind: "find", field: []string{"Summary", "SummaryExists"}, args: []string{"subAccAddr"}},
+	"HasLockedBalances":     {kind: "hask", field: []string{"Locks", "UnlockTS"}},
+	"SetAccountSummary":     {kind: "set", field: []string{"Summary"}},
+	"SetLockedBalances":     {kind: "upsertall", field: []string{"Locks", "UnlockTS"}},
+	"sendCoinsToSubaccount": {kind: "move", field: []string{"CreatorBal", "SubBal"}, args: []string{"creatorAddr", "subAccAddr"}},
+}
+
 var statefulList = []statefulSpec{{
+	recv: "Keeper", pkg: "x/subaccount/keeper", name: "TopUp", state: "subtop", keeperPkg: "x/subaccount/keeper", ops: subtopOps, ctxTime: "Now",
+	fields: []stateField{{"Exists", "bool"}, {"Summary", "G_AccountSummary"}, {"SummaryExists", "bool"}, {"Locks", "list G_LockedBalance"},
+		{"CreatorBal", "Z"}, {"SubBal", "Z"}, {"Now", "Z"}},
+}, {
 	recv: "Keeper", pkg: "x/ovm/keeper", name: "finishPubkeysChangeProposal", state: "ovm", fields: ovmFields, keeperPkg: "x/ovm/keeper", ops: ovmOps, ctxTime: "Now",
 }, {
 	recv: "Keeper", pkg: "x/ovm/keeper", name: "finishPubkeysChangeProposals", state: "ovm", keeperPkg: "x/ovm/keeper", ops: ovmOps, ctxTime: "Now",
@@ -532,6 +545,15 @@ func (c *fctx) applyStateOp(op stateOp, args []string, rest string) string {
 		return out
 	case "nop":
 		return rest
+	case "upsertall":
+		el := ""
+		for _, f := range c.stFields {
+			if f.name == op.field[0] {
+				el = strings.TrimPrefix(f.typ, "list ")
+			}
+		}
+		return fmt.Sprintf("let g_st := set_%s_%s g_st (fold_left (fun g__acc g__l => kupd (fun g__x => %s_%s g__x =? %s_%s g__l) g__l g__acc) %s (%s_%s g_st)) in\n  %s",
+			S, op.field[0], el, op.field[1], el, op.field[1], args[len(args)-1], S, op.field[0], rest)
 	case "removek":
 		el := ""
 		for _, f := range c.stFields {
@@ -891,6 +913,15 @@ func (c *fctx) call(e *ast.CallExpr) string {
 				key := c.expr(e.Args[len(e.Args)-1])
 				return fmt.Sprintf("(match find (fun g__x => %s_%s g__x =? %s) (%s_%s g_st) with Some g__x => (g__x, true) | None => (%s_zero, false) end)",
 					el, op.field[1], key, S, op.field[0], el)
+			}
+			if op.kind == "hask" {
+				el := ""
+				for _, f := range c.stFields {
+					if f.name == op.field[0] {
+						el = strings.TrimPrefix(f.typ, "list ")
+					}
+				}
+				return fmt.Sprintf("(existsb (fun g__x => %s_%s g__x =? %s) (S_%s_%s g_st))", el, op.field[1], c.expr(e.Args[len(e.Args)-1]), c.state.state, op.field[0])
 			}
 			if op.kind == "callerr" {
 				return fmt.Sprintf("(%s g_st %s)", op.field[0], strings.Join(c.plainArgs(e), " "))
@@ -1537,8 +1568,14 @@ func (c *fctx) stmts(list []ast.Stmt) string {
 			}
 		}
 		if len(s.Lhs) == 2 && len(s.Rhs) == 1 {
-			// a, b := f(...) where f returns two plain values
-			if tup, ok := c.info.TypeOf(s.Rhs[0]).(*types.Tuple); ok && tup.Len() == 2 && tup.At(1).Type().String() != "error" {
+			// a, b := f(...) where f returns two plain values (not a state operation: those are handled below)
+			isStateOp := false
+			if call, ok := s.Rhs[0].(*ast.CallExpr); ok {
+				if f, ok := call.Fun.(*ast.SelectorExpr); ok {
+					_, isStateOp = c.stateOpOf(f)
+				}
+			}
+			if tup, ok := c.info.TypeOf(s.Rhs[0]).(*types.Tuple); ok && !isStateOp && tup.Len() == 2 && tup.At(1).Type().String() != "error" {
 				a, aok := s.Lhs[0].(*ast.Ident)
 				b, bok := s.Lhs[1].(*ast.Ident)
 				if aok && bok {
@@ -1546,8 +1583,9 @@ func (c *fctx) stmts(list []ast.Stmt) string {
 				}
 			}
 		}
-		// ctx := sdk.UnwrapSDKContext(goCtx): the context is part of the state
-		if len(s.Lhs) == 1 && len(s.Rhs) == 1 && c.state != nil && isCtx(c.info.TypeOf(s.Lhs[0])) {
+		// ctx := sdk.UnwrapSDKContext(goCtx): the context is part of the state; addr := sdk.MustAccAddressFromBech32(s): addresses are
+		// only passed on to keeper operations, which are mapped by the names of these variables
+		if len(s.Lhs) == 1 && len(s.Rhs) == 1 && c.state != nil && (isCtx(c.info.TypeOf(s.Lhs[0])) || isAddr(c.info.TypeOf(s.Lhs[0]))) {
 			return rest()
 		}
 		if c.state != nil && len(s.Rhs) == 1 {
@@ -1555,6 +1593,10 @@ func (c *fctx) stmts(list []ast.Stmt) string {
 				if f, ok := call.Fun.(*ast.SelectorExpr); ok {
 					if op, ok := c.stateOpOf(f); ok {
 						switch {
+						case op.kind == "exists" && len(s.Lhs) == 2:
+							if b, ok := s.Lhs[1].(*ast.Ident); ok {
+								return fmt.Sprintf("let %s := S_%s_%s g_st in\n  %s", ident(b.Name), c.state.state, op.field[0], rest())
+							}
 						case op.kind == "findk" && len(s.Lhs) == 2:
 							a, aok := s.Lhs[0].(*ast.Ident)
 							b, bok := s.Lhs[1].(*ast.Ident)
@@ -1714,6 +1756,10 @@ func (c *fctx) stmts(list []ast.Stmt) string {
 				}
 			}
 			if id, ok := call.Fun.(*ast.Ident); ok && id.Name == "panic" {
+				// inside a message handler a panic aborts the transaction like an error does
+				if c.state != nil && (c.results == "err" || c.results == "valerr") {
+					return "None"
+				}
 				return c.fail("panic statement")
 			}
 			if f, ok := call.Fun.(*ast.SelectorExpr); ok {
@@ -1847,6 +1893,7 @@ func analyseKernels(w *world) string {
 	b.WriteString("Definition klen {A} (l : list A) : Z := Z.of_nat (length l).\n")
 	b.WriteString("(* a range loop: the state carries the variables the body assigns and a flag set by break / return *)\nDefinition kfold {S A} (init : S) (l : list A) (f : S -> A -> S) : S := fold_left f l init.\n")
 	b.WriteString("Definition kseq (n : Z) : list Z := map Z.of_nat (seq 0 (Z.to_nat n)).\n(* xs[k]; outside the range (where Go panics) the given zero value *)\nDefinition knth {A} (l : list A) (k : Z) (d : A) : A := if k <? 0 then d else nth (Z.to_nat k) l d.\n")
+	b.WriteString("(* replace the first element satisfying f by v, or append v *)\nFixpoint kupd {A} (f : A -> bool) (v : A) (l : list A) : list A := match l with [] => [v] | x :: r => if f x then v :: r else x :: kupd f v r end.\n")
 	b.WriteString("Definition dec_ceil (a : Z) : Z := let q := Z.quot a PREC in let r := Z.rem a PREC in if r =? 0 then q * PREC else if r <? 0 then q * PREC else (q + 1) * PREC.\n\n")
 	// records
 	emitted := map[string]bool{}
